@@ -1017,51 +1017,88 @@ func (s *sharedEntryAttributes) validateLeafListMinMaxAttributes(resultChan chan
 }
 
 func (s *sharedEntryAttributes) validateLength(resultChan chan<- *types.ValidationResultEntry) {
-	if schema := s.schema.GetField(); schema != nil {
+	// the length restriction of a leaf applies to its value, the one of a leaf-list to each of its entries
+	typ := s.restrictedType()
+	if len(typ.GetLength()) == 0 {
+		return
+	}
 
-		if len(schema.GetType().Length) == 0 {
-			return
-		}
+	lv := s.leafVariants.GetHighestPrecedence(false, true)
+	if lv == nil {
+		return
+	}
 
-		lv := s.leafVariants.GetHighestPrecedence(false, true)
-		if lv == nil {
-			return
+	tv, err := lv.Value()
+	if err != nil {
+		resultChan <- types.NewValidationResultEntry(lv.Owner(), fmt.Errorf("failed reading value from %s LeafVariant %v: %w", s.Path(), lv, err), types.ValidationResultEntryTypeError)
+		return
+	}
+	for _, value := range restrictedTexts(tv) {
+		if lengthAllowed(typ.GetLength(), utf8.RuneCountInString(value)) {
+			continue
 		}
-
-		tv, err := lv.Value()
-		if err != nil {
-			resultChan <- types.NewValidationResultEntry(lv.Owner(), fmt.Errorf("failed reading value from %s LeafVariant %v: %w", s.Path(), lv, err), types.ValidationResultEntryTypeError)
-			return
-		}
-		value := tv.GetStringVal()
-		actualLength := utf8.RuneCountInString(value)
-
-		for _, lengthDef := range schema.GetType().Length {
-			if lengthDef.Min.Value <= uint64(actualLength) && uint64(actualLength) <= lengthDef.Max.Value {
-				return
-			}
-		}
-		lenghts := []string{}
-		for _, lengthDef := range schema.GetType().Length {
-			lenghts = append(lenghts, fmt.Sprintf("%d..%d", lengthDef.Min.Value, lengthDef.Max.Value))
-		}
-		resultChan <- types.NewValidationResultEntry(lv.Owner(), fmt.Errorf("error length of Path: %s, Value: %s not within allowed length %s", s.Path(), value, strings.Join(lenghts, ", ")), types.ValidationResultEntryTypeError)
+		resultChan <- types.NewValidationResultEntry(lv.Owner(), fmt.Errorf("error length of Path: %s, Value: %s not within allowed length %s", s.Path(), value, lengthsString(typ.GetLength())), types.ValidationResultEntryTypeError)
 	}
 }
 
+// restrictedType returns the type that carries the length and pattern restrictions of the entry:
+// the type of the leaf or of the leaf-list, nil for everything else.
+func (s *sharedEntryAttributes) restrictedType() *sdcpb.SchemaLeafType {
+	if field := s.schema.GetField(); field != nil {
+		return field.GetType()
+	}
+	return s.schema.GetLeaflist().GetType()
+}
+
+// restrictedTexts returns the texts that length and pattern restrictions are checked against:
+// the value of a leaf, every entry of a leaf-list.
+func restrictedTexts(tv *sdcpb.TypedValue) []string {
+	ll := tv.GetLeaflistVal()
+	if ll == nil {
+		return []string{tv.GetStringVal()}
+	}
+	result := make([]string, 0, len(ll.GetElement()))
+	for _, elem := range ll.GetElement() {
+		result = append(result, elem.GetStringVal())
+	}
+	return result
+}
+
+// lengthAllowed reports if one of the given length definitions allows the given length.
+func lengthAllowed(lengths []*sdcpb.SchemaMinMaxType, actualLength int) bool {
+	for _, lengthDef := range lengths {
+		if lengthDef.Min.Value <= uint64(actualLength) && uint64(actualLength) <= lengthDef.Max.Value {
+			return true
+		}
+	}
+	return false
+}
+
+func lengthsString(lengths []*sdcpb.SchemaMinMaxType) string {
+	result := []string{}
+	for _, lengthDef := range lengths {
+		result = append(result, fmt.Sprintf("%d..%d", lengthDef.Min.Value, lengthDef.Max.Value))
+	}
+	return strings.Join(result, ", ")
+}
+
 func (s *sharedEntryAttributes) validatePattern(resultChan chan<- *types.ValidationResultEntry) {
-	if schema := s.schema.GetField(); schema != nil {
-		if len(schema.Type.Patterns) == 0 {
-			return
-		}
-		lv := s.leafVariants.GetHighestPrecedence(false, true)
-		tv, err := lv.Update.Value()
-		if err != nil {
-			resultChan <- types.NewValidationResultEntry(lv.Owner(), fmt.Errorf("failed reading value from %s LeafVariant %v: %w", s.Path(), lv, err), types.ValidationResultEntryTypeError)
-			return
-		}
-		value := tv.GetStringVal()
-		for _, pattern := range schema.Type.Patterns {
+	// the patterns of a leaf apply to its value, the ones of a leaf-list to each of its entries
+	typ := s.restrictedType()
+	if len(typ.GetPatterns()) == 0 {
+		return
+	}
+	lv := s.leafVariants.GetHighestPrecedence(false, true)
+	if lv == nil {
+		return
+	}
+	tv, err := lv.Update.Value()
+	if err != nil {
+		resultChan <- types.NewValidationResultEntry(lv.Owner(), fmt.Errorf("failed reading value from %s LeafVariant %v: %w", s.Path(), lv, err), types.ValidationResultEntryTypeError)
+		return
+	}
+	for _, value := range restrictedTexts(tv) {
+		for _, pattern := range typ.GetPatterns() {
 			if p := pattern.GetPattern(); p != "" {
 				matched, err := regexp.MatchString(p, value)
 				if err != nil {
